@@ -116,9 +116,20 @@ def generate(seed, tier="quick", mode=None, child=False, **kw):
         ["md5-long"] if r.random() < 0.2 else []), words=o["words"] or ())
     if r.random() < 0.25:
         o["reserved"] = ["zebra%d" % r.randint(0, 9)]
+    as_heavy = False
+    if o["as"] and r.random() < 0.2:
+        # many AS numbers from the small private block (1024 values): replacement collisions become likely
+        o["as"] = [str(x) for x in r.sample(range(64512, 65535), r.randint(25, 60))]
+        as_heavy = True
     ctx = GC.make_ctx(r, o)
     paths, dirs, hidden = GC.gen_tree(r, r.randint(1, 4), hidden=False, dirs=r.random() < 0.5)
     files = [{"path": p, "lines": GC.gen_lines(r, ctx, secrets, o, r.randint(1, 10))} for p in paths]
+    if as_heavy:
+        fl = r.choice(files)
+        nums = list(o["as"])
+        for i in range(0, len(nums), 12):
+            fl["lines"].append({"segs": [["lit", " bgp confederation peers"]] + [x for n_ in nums[i:i + 12] for x in (
+                ["lit", " "], ["as", n_, {"n": 0}])], "eol": "\n"})
     for w in (o["words"] or [])[:2]:
         if r.random() < 0.6:
             fl = r.choice(files)
@@ -352,6 +363,10 @@ def _gen_c10(r, seed, child=False):
             words.append(r.choice(subs))
             rw.append(base)
     o["words"] = words or ["zorvex"]
+    if o["pwd"] and r.random() < 0.5:
+        # words that occur in the text netconan itself generates (pseudonyms, scrub marker)
+        o["words"] = o["words"] + r.sample(["net", "onan", "remov", "netconanr", "sensitiv", "lin", "onanrem"], r.randint(1, 2))
+        style = "overlap"
     user_res = []
     if r.random() < 0.4:
         w = r.choice(o["words"]).lower()
@@ -385,7 +400,7 @@ def _gen_c10(r, seed, child=False):
         elif c < 0.88:
             lines.append(G.lit_line(r.choice(G.BENIGN)))
         elif o["pwd"]:
-            ln = GC.secret_line(r, ctx, secrets, kinds=("keep",))
+            ln = GC.secret_line(r, ctx, secrets, kinds=(r.choice(["keep", "keep", "scrub"]),))
             if ln:
                 lines.append(ln)
         else:
